@@ -73,7 +73,7 @@ class Classifier:
         one = os.path.join(self.p.dir, "classify.ndjson")
         vlib.extract_execution(trace_path, rec["line"], one)
         _, r = vlib.validate(TRACE, one, "FieldTrace.cfg")
-        fails = re.findall(r'<<\s*"FAIL",\s*(\d+),\s*\{([^}]*)\}\s*>>', r.out)
+        fails = [f for f in re.findall(r'<<\s*"FAIL",\s*(\d+),\s*\{([^}]*)\}\s*>>', r.out) if f[1].strip()]
         ks = set()
         for _, body in fails:
             ks |= set(re.findall(r'"(\w+)"', body))
